@@ -535,3 +535,6 @@ REGISTRY["C19"]["partial_clauses"][0] = (
 # C16 consumers: the time-series driver's i-th result is step i's own single run (label, forcing entries), one result per step; every tower alike
 REGISTRY["C16"]["theorems"] += T("Proofs.C16b", "BLDFM.C16", ["timeseries_step_spec", "multitower_series_length"]) \
     + T("Proofs.C14", "BLDFM.C14", ["timeseries_eq_singles", "multitower_eq_singles"])
+
+# C10: any order / repeats, as corollaries
+REGISTRY["C10"]["theorems"] += T("Proofs.C10b", "BLDFM.C10", ["slice_depends_only_on_level", "slices_permuted", "repeated_level_same_slice"])
